@@ -480,8 +480,10 @@ int run(const Options& o)
     c["rule"] =
         "Every strictly increasing n-subset (2 <= n <= nmax) of a 15-point lattice {-2T,-T,-1,0,1,T/2,T,mid,end-2T,end-T,end-1,end,end+1,end+T,end+2T} (T = count/8) x "
         "first index in {-8,-4,0,3} x every gap vector over {1,2,4,7} x sample counts {1,1000,8820000,2^31,2^40}, plus the empty grid and every single marker. "
-        "Each grid is distinct by construction; non-trivial = at least two markers properly overlapping the track, so the call must succeed and every post-condition "
-        "(index -4, exact position of first/last marker from the rational reference, interior markers bit-identical, strictly increasing, idempotence) is evaluated.";
+        "Each grid is distinct by construction; non-trivial = at least two markers properly overlapping the track. For those the exact rational reference first decides whether the grid can be "
+        "normalised at all: if the first retained marker (index below -4) cannot reach beat -4 before the next marker, if the last marker would have to move to or before its predecessor, or if "
+        "the last beat index is far outside int32, the call must throw invalid_argument (counters class.*); otherwise the call must succeed and every post-condition (index -4, exact position of "
+        "first/last marker from the reference, interior markers bit-identical, strictly increasing, idempotence) is evaluated. Cases within rounding distance of a class border are counted as skipped.*.";
     c["states"] = total.get("evaluations") - total.get("outcome.normalised");  // distinct input grids (second evaluation is the idempotence re-run)
     c["transitions"] = total.get("evaluations");
     c["traces_validated_against_impl"] = total.get("nontrivial");
